@@ -12,7 +12,7 @@ import sys
 from .. import core
 
 PROBES = ["plss_nodir", "plss_full", "tract_build", "trs_attrs", "trs_dict", "find_twprge", "plss_qq", "trslist",
-          "plss_ocrlike", "tract_bareqq", "held_parse", "cfg_parse"]
+          "plss_ocrlike", "tract_bareqq", "held_parse", "cfg_parse", "held_tract"]
 MCS = [("n", "w"), ("n", "e"), ("s", "w"), ("s", "e")]
 
 
@@ -79,8 +79,8 @@ def run(ctx):
     maxops = 9 if thorough else 4
     ctx.tlc("GlobalState", {"MaxOps": maxops + 1, "Fault": "none", "EmitCases": False}, invariants=invs, view="LastOnly")
     ctx.tlc("GlobalState", {"MaxOps": 2, "Fault": "none", "EmitCases": False}, invariants=invs, coverage=True, count=False)
-    ctx.require_actions(["SetMC", "RestoreMC", "ClearCache", "SetUseCache", "ParseOther", "MakeTRS", "Mutate", "Hold", "UseCfg", "AskLayout", "Probe"])
-    for fault in ("share_dict", "freeze_default", "held_keeps_defaults", "cfg_obj_written", "layout_remembered"):
+    ctx.require_actions(["SetMC", "RestoreMC", "ClearCache", "SetUseCache", "ParseOther", "MakeTRS", "Mutate", "Hold", "UseCfg", "AskLayout", "DryRun", "Probe"])
+    for fault in ("share_dict", "freeze_default", "held_keeps_defaults", "cfg_obj_written", "layout_remembered", "dry_run_leaves_flags"):
         ctx.tlc("GlobalState", {"MaxOps": 3, "Fault": fault, "EmitCases": False}, invariants=invs, expect_violation=fault,
                 count=False)
     # (histories of 3 actions ending in a probe: 13 690; of 4 actions: 506 530 - too many to replay)
@@ -106,7 +106,7 @@ def run(ctx):
         cases.append({"id": "m%d" % len(seen_sim), "kind": "c15", "abs": {}, "args": {"ops": c["ops"]}})
     ctx.notes["simulated_behaviours"] = len(seen_sim)
     # longer random histories ending in several probes
-    names = ["set_mc", "restore_mc", "clear_cache", "use_cache", "parse_other", "make_trs", "mutate", "probe", "hold", "use_cfg", "ask_layout"]
+    names = ["set_mc", "restore_mc", "clear_cache", "use_cache", "parse_other", "make_trs", "mutate", "probe", "hold", "use_cfg", "ask_layout", "dry_run"]
     vias = ["trs_to_dict_str", "trs_to_dict_obj", "tract_to_dict", "tracts_to_dict", "tracts_to_list", "flag_lists"]
     for n in range(3000 if thorough else 400):
         ops = []
@@ -136,7 +136,7 @@ def run(ctx):
     ctx.notes["fresh_interpreter_references"] = len(PROBES) * len(MCS)
     ctx.rule = ("histories = %d%% seeded sample of all behaviours of spec/GlobalState.tla with 3 actions (model checked up to %d) ending in a probe "
                 "(MasterConfig set / restored, cache cleared / disabled / pre-warmed, other descriptions parsed, returned dicts "
-                "and lists mutated through 6 conversion paths, a description created with wait_to_parse and parsed later) + random histories of 7..15 actions; reference = each of 12 probes "
+                "and lists mutated through 6 conversion paths, a description created with wait_to_parse and parsed later, previews with commit=False on kept objects) + random histories of 7..15 actions; reference = each of 13 probes "
                 "x 4 MasterConfig values in its own fresh interpreter; non-trivial = distinct history" % (int(keep * 100), maxops))
     ctx.assumptions += ["probe outcome = full snapshot of the parsed objects / returned values (28-bit hash)",
                         "worker processes reset MasterConfig and the TRS cache at the beginning and end of every history"]
